@@ -925,6 +925,16 @@ func genLease6(r *Rng) (leaseScenario, []string) {
 	if r.Chance(1, 3) {
 		for {
 			sc.mods = genMods6(r)
+			// RapidSolicit applies ONE modifier list to two messages.  A list in which
+			// one modifier inserts an identity-association OBJECT (opt(iana/iata/iapd))
+			// and another extends the message's first such option IN PLACE
+			// (ianaaddrs / iata / iapd) makes the two messages share and grow that object:
+			// modifier values with state, outside the exchange rules C13 is about (its
+			// clauses are stated for lists that do not write these options) and outside
+			// the value model.  C16's v6mods op exercises those modifiers on one message.
+			if strings.Contains(sc.mods, "opt(ia") && (strings.Contains(sc.mods, "ianaaddrs(") || strings.Contains(sc.mods, ";iata(") || strings.Contains(sc.mods, "[iata(") || strings.Contains(sc.mods, ";iapd(") || strings.Contains(sc.mods, "[iapd(")) {
+				continue
+			}
 			if !strings.ContainsAny(sc.mods, "!@| ") {
 				break
 			}
